@@ -209,24 +209,16 @@ func (c *Client) Abort() {
 
 // Use plugin handlers.
 func (c *Client) Use(handler ...PluginHandler) *Client {
-	invokeHandlers, ioHandlers := SeparatePluginHandlers(handler)
-	if len(invokeHandlers) > 0 {
-		c.invokeManager.Use(invokeHandlers...)
-	}
-	if len(ioHandlers) > 0 {
-		c.ioManager.Use(ioHandlers...)
-	}
+	invokeHandlers, ioHandlers, invokeObjects, ioObjects := separatePluginHandlers(handler)
+	usePluginHandlers(c.invokeManager, invokeHandlers, invokeObjects)
+	usePluginHandlers(c.ioManager, ioHandlers, ioObjects)
 	return c
 }
 
 // Unuse plugin handlers.
 func (c *Client) Unuse(handler ...PluginHandler) *Client {
-	invokeHandlers, ioHandlers := SeparatePluginHandlers(handler)
-	if len(invokeHandlers) > 0 {
-		c.invokeManager.Unuse(invokeHandlers...)
-	}
-	if len(ioHandlers) > 0 {
-		c.ioManager.Unuse(ioHandlers...)
-	}
+	invokeHandlers, ioHandlers, invokeObjects, ioObjects := separatePluginHandlers(handler)
+	unusePluginHandlers(c.invokeManager, invokeHandlers, invokeObjects)
+	unusePluginHandlers(c.ioManager, ioHandlers, ioObjects)
 	return c
 }
